@@ -38,7 +38,9 @@ PROPS = {
     },
     "C02": {
         "level": "proof",
-        "verus": [("bookkeep", ["process_posting", "add_transaction"]), ("balance", ["Balance::add_posting_amount"]), ("amounts", ["Amount::assert_balance", "Amount::get_part", "Amount::is_absolute_zero", "Amount::is_zero", "SubAssign for Amount", "Amount::remove_zero_entries", "AddAssign<Amount> for Amount"])],
+        "verus": [("bookkeep", ["process_posting", "add_transaction"]), ("balance", ["Balance::add_posting_amount", "Balance::set_partial", "Balance::add_amount"]),
+                  ("amounts", ["Amount::assert_balance", "Amount::get_part", "Amount::is_absolute_zero", "Amount::is_zero", "SubAssign for Amount", "Amount::remove_zero_entries", "AddAssign<Amount> for Amount", "Amount::set_partial",
+                               "AddAssign<PostingAmount> for Amount", "AddAssign<SingleAmount> for Amount"])],
         "family": ("c02", {"quick": ["quick"], "thorough": ["thorough"]}),
         "explanation": "Verus proves: process_posting adds the posting to exactly that account (whole-balance postcondition, zero entries removed), and when it returns Ok with `= X` present the assertion "
                        "holds on the updated holdings (X's commodity equals X exactly; bare `= 0` means nothing non-zero is held); a false assertion yields BalanceAssertionFailure carrying the posting's "
@@ -62,7 +64,8 @@ PROPS = {
     },
     "C04": {
         "level": "proof",
-        "verus": [("daterange", None), ("balance", ["Balance::add_amount", "Balance::add_posting_amount"]), ("amounts", ["AddAssign<Amount> for Amount", "Amount::remove_zero_entries"])],
+        "verus": [("daterange", None), ("balance", None), ("bookkeep", ["process_posting", "add_transaction"]),
+                  ("amounts", ["AddAssign<Amount> for Amount", "Amount::remove_zero_entries", "Amount::set_partial", "AddAssign<PostingAmount> for Amount", "AddAssign<SingleAmount> for Amount", "TryFrom<&Amount> for PostingAmount"])],
         "family": ("c04", {"quick": [], "thorough": []}),
         "explanation": "Verus proves (a) DateRange::contains is exactly start <= d < end with open ends as infinity, adjacent windows partition their union and empty windows contain nothing, "
                        "is_bypass/require_recompute choose the stored balance only for an unbounded window without per-posting conversion; (b) every update of the running Balance adds the posting to that "
@@ -316,7 +319,7 @@ PROPS = {
         "units_doc": ["cli/src/import/csv.rs: FieldMap::amount, row-order statement of import (slice)", "cli/src/import/single_entry.rs: amount_with_sign, Txn::dest_amount (two slices)", "cli/src/import/amount.rs: Neg impls, AmountRef::into_borrowed"],
         "assumptions": [L0_DECIMAL, "assumed (L1): FieldMap::resolve returns the configured column/template text; str_to_comma_decimal returns None for an empty string, else the number written or an error (it is PrettyDecimal::from_str, C07)",
                         "stand-ins for csv::StringRecord, Template, ImportError (vx/prelude/csv_stub.rs) and for the amount member of Txn (TxnAmounts)"],
-        "bounded": ["c16 family: 16 + 2 configurations, 4-5 rows each"],
+        "bounded": ["c16 family: 16 base configurations (account type x amount / credit-debit columns x row order x running balance) + layout variants (columns by 1-based index, `;` and tab delimiters, three skipped head lines one of them blank) + 2 conversion configurations: 66 statements of 4-5 rows"],
         "not_decided": ["Txn::to_double_entry (bounded family only)", "csv::import row loop (csv crate, regex, HashMap): conversion block, templates (bounded family only)", "that okane's book-keeping accepts the result (bounded family only)"],
     },
     "C17": {
